@@ -71,14 +71,21 @@ def analyse_save_rows(res: RuleResult, summ) -> None:
         # is the written file empty when the dump starts?  'w' / 'x' modes truncate or create; a descriptor
         # opened with os.open does only if O_TRUNC or O_EXCL is among its flags
         not_empty = []
+        exclusive = []
         for e in wr_opens:
             mode = e["argv"][1] if len(e["argv"]) > 1 else e.get("kwargv", {}).get("mode")
             m = str(mode.value) if isinstance(mode, Const) else "?"
+            removed_first = any(x["name"] in ("os.remove", "os.unlink") and x["args"] and x["args"][0] == e["args"][0] and x["i"] < e["i"] for x in fe)
             if e.get("via") == "os.fdopen":
                 fl = e.get("flags")
-                if fl is None or not (fl & (os.O_TRUNC | os.O_EXCL)):
-                    not_empty.append(f"os.open flags {fl} without O_TRUNC / O_EXCL")
-            elif not ("w" in m or "x" in m):
+                if fl is None or not (fl & os.O_TRUNC):
+                    not_empty.append(f"os.open flags {fl} without O_TRUNC")
+                if fl is not None and (fl & os.O_EXCL) and not removed_first:
+                    exclusive.append("O_EXCL")
+            elif "x" in m:
+                if not removed_first:
+                    exclusive.append(f"mode {m!r}")
+            elif "w" not in m:
                 not_empty.append(f"mode {m!r}")
         dumps = [e for e in fe if e["name"] in ("pickle.dump", "json.dump")]
         flushes = [e for e in fe if e["name"] == "file.flush"]
@@ -111,7 +118,8 @@ def analyse_save_rows(res: RuleResult, summ) -> None:
         tmp = wr_opens[0]["args"][0] if wr_opens else None
         ok1 = len(wr_opens) == 1 and tmp is not None
         res.add("C12-R1", f"save_sensors[{ext}] / exactly one file is opened for writing", ok1, "mysensors/persistence.py", f"{len(wr_opens)} write opens", r["witness"] if not ok1 else None)
-        res.add("C12-R1", f"save_sensors[{ext}] / the temp file is written from empty (truncating or exclusive open)", not not_empty, "mysensors/persistence.py", "open mode truncates" if not not_empty else f"the written file is opened without truncation ({'; '.join(not_empty)}): a longer leftover temp file keeps its tail behind the new content", r["witness"] if not_empty else None)
+        res.add("C12-R1", f"save_sensors[{ext}] / the temp file is written from empty (truncating open)", not not_empty, "mysensors/persistence.py", "open mode truncates" if not not_empty else f"the written file is opened without truncation ({'; '.join(not_empty)}): a longer leftover temp file keeps its tail behind the new content", r["witness"] if not_empty else None)
+        res.add("C12-R1", f"save_sensors[{ext}] / a leftover temp file of an interrupted save does not block the next save", not exclusive, "mysensors/persistence.py", "the temp file is overwritten" if not exclusive else f"the temp file is created exclusively ({'; '.join(exclusive)}) and nothing removes a leftover one first: after one interrupted save every later save fails with FileExistsError", r["witness"] if exclusive else None)
         moves_in = [e for e in renames if e["args"] and e["args"][0] == tmp]
         ok_move = len(moves_in) == 1
         res.add("C12-R3", f"save_sensors[{ext}] / the temp file is moved onto the main file exactly once", ok_move, "mysensors/persistence.py", f"{len(moves_in)} moves of the temp file", r["witness"] if not ok_move else None)
@@ -129,6 +137,11 @@ def analyse_save_rows(res: RuleResult, summ) -> None:
         ok_dump = len(dumps) == 1 and len(dumps[0]["args"]) > 1 and dumps[0]["args"][1] == h
         ok_order = ok_dump and flushes and fsyncs and wexits and dumps[0]["i"] < flushes[0]["i"] < fsyncs[0]["i"] < wexits[0]["i"] and flushes[0]["recv"] == h and "fileno" in repr(fsyncs[0]["args"][0]) and repr(h) in repr(fsyncs[0]["args"][0])
         res.add("C12-R2", f"_save_{ext} / dump -> flush -> fsync(fileno) on the same handle inside the with block", bool(ok_order), "mysensors/persistence.py", "durable before visible" if ok_order else f"dump {len(dumps)}, flush {len(flushes)}, fsync {len(fsyncs)} - order or handle mismatch", r["witness"] if not ok_order else None)
+        for d in dumps:
+            ea = d.get("kwargv", {}).get("ensure_ascii")
+            if d["name"] == "json.dump":
+                okea = ea is None or not (isinstance(ea, Const) and ea.value is False)
+                res.add("C12-R2", f"_save_{ext} / every string can be written whatever it contains (ASCII-escaped JSON)", okea, "mysensors/persistence.py", "json.dump escapes non-ASCII" if okea else "ensure_ascii=False writes characters raw: a payload with a lone surrogate (accepted from the wire) makes every save raise UnicodeEncodeError, while pickle saves it", r["witness"] if not okea else None)
         ok_data = ok_dump and "_sensors" in repr(dumps[0]["args"][0]) or ok_dump and "sensors" in repr(dumps[0]["args"][0])
         res.add("C12-R2", f"_save_{ext} / the sensor map is what is dumped", bool(ok_data), "mysensors/persistence.py", "")
         write_done = wexits[0]["i"] if wexits else 10**9
@@ -222,6 +235,10 @@ def analyse_load_rows_c12(res: RuleResult, summ) -> None:
             continue
         main_attempts = [l for l in loads if not l["bak"]]
         bak_attempts = [l for l in loads if l["bak"]]
+        # the backup is the only other copy: nothing may remove or move it before the backup attempt begins
+        first_bak_i = bak_attempts[0]["i"] if bak_attempts else 10**9
+        early = [(i, a) for i, a in r["removes"] + r["renames"] if a and r["bak_key"] in a and i < first_bak_i]
+        res.add("C12-R4", f"safe_load_sensors[{ext}] / the backup is left alone until the main file has failed to load", not early, "mysensors/persistence.py", "no file operation on the backup during the main attempt" if not early else "the backup is removed / moved while the main file is being tried, before it has proved loadable: a damaged main file then leaves nothing to fall back to", r["witness"] if early else None)
         if r["kind"] == "raise":
             continue  # C13
         main_ok = main_attempts and main_attempts[0]["ok"] is True
